@@ -199,12 +199,14 @@ func (b *Builder) epsilonClosureOnePass(root nfa.StateID) ([]closureEntry, bool,
 			b.matchMask = slots
 
 		case nfa.StateSplit:
-			// Follow both epsilon paths
+			// Follow both epsilon paths. Push right first so that left (the
+			// preferred branch) is popped first: the closure is then visited
+			// in priority order.
 			left, right := state.Split()
-			if err := b.stackPush(left, slots); err != nil {
+			if err := b.stackPush(right, slots); err != nil {
 				return nil, false, err
 			}
-			if err := b.stackPush(right, slots); err != nil {
+			if err := b.stackPush(left, slots); err != nil {
 				return nil, false, err
 			}
 
@@ -243,6 +245,14 @@ func (b *Builder) epsilonClosureOnePass(root nfa.StateID) ([]closureEntry, bool,
 
 			// ByteRange and Sparse are not epsilon transitions
 			// They will be handled in buildTransitions
+
+		case nfa.StateByteRange, nfa.StateSparse:
+			// A byte transition with lower priority than Match (x+?, x*?, x??,
+			// (?:|x)): leftmost-first must stop at the match, which Search does
+			// not implement (no transition is ever built with matchWins).
+			if b.matched {
+				return nil, false, ErrNotOnePass
+			}
 		}
 	}
 
